@@ -315,8 +315,10 @@ def main(argv=None):
             ev['coverage']['states'] = 1
         if ev['coverage']['transitions'] < 1:
             ev['coverage']['transitions'] = 1
-        os.makedirs(os.path.join(VERIF, 'evidence'), exist_ok=True)
-        json.dump(ev, open(os.path.join(VERIF, 'evidence', '%s.json' % prop), 'w'), indent=1)
+        # VF_EVIDENCE_DIR: keep a thorough run's report next to (not instead of) the quick tier's evidence file
+        evdir = os.path.join(VERIF, os.environ.get('VF_EVIDENCE_DIR', 'evidence'))
+        os.makedirs(evdir, exist_ok=True)
+        json.dump(ev, open(os.path.join(evdir, '%s.json' % prop), 'w'), indent=1)
     return code
 
 
